@@ -101,6 +101,7 @@ class rrulebase(object):
             self._cache = None
             self._cache_complete = False
             self._len = None
+            self._generation = 0
 
     def __iter__(self):
         if self._cache_complete:
@@ -121,6 +122,10 @@ class rrulebase(object):
 
         self._len = None
 
+        # Iterators started before this point belong to an older generation
+        # and must not publish their results any more.
+        self._generation = getattr(self, '_generation', 0) + 1
+
     def _iter_cached(self):
         i = 0
         gen = self._cache_gen
@@ -137,14 +142,17 @@ class rrulebase(object):
                         for j in range(10):
                             cache.append(advance_iterator(gen))
                     except StopIteration:
-                        self._cache_gen = gen = None
-                        self._cache_complete = True
+                        gen = None
+                        if cache is self._cache:
+                            # Not invalidated since this iterator started
+                            self._cache_gen = None
+                            self._cache_complete = True
                         break
                 finally:
                     release()
             yield cache[i]
             i += 1
-        while i < self._len:
+        while i < len(cache):
             yield cache[i]
             i += 1
 
@@ -1426,6 +1434,7 @@ class rruleset(rrulebase):
         self._exdate.append(exdate)
 
     def _iter(self):
+        generation = self._generation
         rlist = []
         self._rdate.sort()
         self._genitem(rlist, iter(self._rdate))
@@ -1455,7 +1464,9 @@ class rruleset(rrulebase):
             advance_iterator(ritem)
             if rlist and rlist[0] is ritem:
                 heapq.heapreplace(rlist, ritem)
-        self._len = total
+        if generation == self._generation:
+            # Members added meanwhile make this total a stale one
+            self._len = total
 
 
 
